@@ -347,7 +347,14 @@ pub fn exec_op(ctx: &Arc<Ctx>, op: &Op, caller: usize, nested: bool, local: &mut
             return;
         }
         Op::Open(g) => { let gt = &ctx.gates[*g]; *gt.open.lock().unwrap() = true; gt.cv.notify_all(); return; }
-        Op::DropObj(q) => { desync::verif::log("api", "DROPOBJ", *q, String::new()); let o = ctx.objs[*q].lock().unwrap().take(); drop(o); return; }
+        Op::DropObj(q) => {
+            desync::verif::log("api", "DROPOBJ", *q, String::new()); let o = ctx.objs[*q].lock().unwrap().take(); drop(o);
+            // queue mode: let go of the queue handle WITHOUT synchronising with the queue (the scheduler-level API allows that); the payload
+            // is leaked on purpose, so that an operation that is still asleep on the queue can use it when it is woken
+            let qo = ctx.qobjs[*q].lock().unwrap().take();
+            if let Some(qo) = qo { match Arc::try_unwrap(qo) { Ok(qv) => { let qv = std::mem::ManuallyDrop::new(qv); let qq = unsafe { std::ptr::read(&qv.queue) }; drop(qq); } Err(a) => { std::mem::forget(a) } } }
+            return;
+        }
         Op::Resume | Op::DropResumer if local.susp_fut.is_some() && local.resumer.is_none() => {
             // the suspend request was made earlier without awaiting it: get the resumer now, then go on as R / r
             let (oid, fut) = local.susp_fut.take().unwrap();
@@ -875,6 +882,7 @@ pub fn end_oracles(ctx: &Arc<Ctx>, _quiet: u64) {
     for (i, r) in ops.iter().enumerate() {
         if r.kind == 'U' || ctx.mons[r.obj].panicked.load(SeqCst) { continue; }
         if r.accepted && !r.cancelled && r.runs != 1 && !(r.kind == 'Y') { ctx.error("C03", format!("operation {} ({}) ran {} times", i, r.text, r.runs)); }
+        if (r.kind == 'F' || r.kind == 'A') && r.cancelled && r.runs > 0 { ctx.error("C07", format!("operation {} ({}) was abandoned after it had started: its job was dropped instead of being completed", i, r.text)); }
         if r.busy && r.runs != 0 { ctx.error("C09", format!("try_sync {} returned Busy but ran its closure", i)); }
         if r.kind == 'S' && !(r.inv < r.start && r.start < r.end && r.end < r.ret) { ctx.error("C04", format!("sync {} did not run strictly inside its call: {:?}", i, r)); }
         if r.kind == 'T' && r.accepted && !(r.inv < r.start && r.end < r.ret) { ctx.error("C09", format!("try_sync {} did not run strictly inside its call", i)); }
@@ -900,8 +908,11 @@ pub fn end_oracles(ctx: &Arc<Ctx>, _quiet: u64) {
         }
     }
     // C05: every object freed exactly once, after every operation on it
+    let qmode_now = ctx.prog.callers.iter().flatten().any(|o| matches!(o, Op::Suspend(_) | Op::SuspendLazy(_) | Op::SuspendHand(_) | Op::ResumeShared(_)));
+    let let_go: std::collections::HashSet<usize> = if qmode_now { ctx.prog.callers.iter().flatten().filter_map(|o| if let Op::DropObj(q) = o { Some(*q) } else { None }).collect() } else { Default::default() };
     for m in ctx.mons.iter() {
         if m.panicked.load(SeqCst) { continue; }
+        if let_go.contains(&m.id) { continue; }     // queue mode X<q>: the queue handle was let go without a sync and the payload leaked on purpose
         let d = m.drops.load(SeqCst);
         if d != 1 { ctx.error("C05", format!("object {} was freed {} times", m.id, d)); }
         let ft = m.free_tick.load(SeqCst);
